@@ -233,6 +233,8 @@ class Fetch:
     walk_error: str | None = None
     listed_index: int | None = None     # index in the expanded timeline
     end_le_now: bool | None = None      # (t+d)/ts <= now - AST  (C01's condition)
+    win_off_us: int | None = None       # segment start minus the start of the time-shift window (µs, as of `now`)
+    fetch_now_us: int | None = None     # clock of the media request when it differs from the manifest's
     before_window: bool | None = None   # t + d/2 < now - AST - timeShiftBufferDepth (listed although its
     #                                     midpoint precedes the time-shift window as of `now`)
 
@@ -241,7 +243,8 @@ class Fetch:
 
 
 def _event_schedules(manifest_url: str):
-    """(timescale, interval, start, count) of every in-band event schedule the manifest URL enables"""
+    """(timescale, interval, start, count) of every in-band event schedule the URL enables (callers pass the
+    MEDIA url: a template without the event feature does not forward the option)"""
     import urllib.parse
     q = dict(urllib.parse.parse_qsl(urllib.parse.urlsplit(manifest_url).query))
     for k in [k for k in q.get("events", "").split(",") if k in ("ping", "scte35")]:
@@ -304,11 +307,11 @@ def us_since_epoch(dt: datetime.datetime) -> int:
 
 
 def pick(rng, items: list, k: int, must=()) -> list:
-    """first 2, last 3, the `must` indices and a random sample of the rest (indices)"""
+    """first 2, the entries a quarter and half way in, last 3, the `must` indices and a random sample of the rest"""
     n = len(items)
     if n <= k:
         return list(range(n))
-    idx = {0, 1, n - 1, n - 2, n - 3} | {i for i in must if 0 <= i < n}
+    idx = {0, 1, n // 4, n // 2, n - 1, n - 2, n - 3} | {i for i in must if 0 <= i < n}
     while len(idx) < k:
         idx.add(rng.randrange(n))
     return sorted(idx)
@@ -327,14 +330,20 @@ def width_boundaries(times: list) -> list:
 
 
 def walk_manifest(app, client, clock, stream: str, url: str, now: datetime.datetime, rng,
-                  per_rep: int = 8, want_init: bool = True):
-    """→ (Mpd | None, status, [Fetch])"""
+                  per_rep: int = 8, want_init: bool = True, fetch_delay_s: float = 0):
+    """→ (Mpd | None, status, [Fetch]).  `fetch_delay_s`: the init and media requests are made that much later
+    than the manifest request (a player does not fetch at the instant of the manifest)"""
     clock.set(now)
     r = client.get(url)
     if r.status_code != 200:
         return None, r.status_code, []
     mpd = segwalk.parse_mpd("http://localhost" + url, r.data)
     now_us = us_since_epoch(now)
+    later_us = None
+    if fetch_delay_s:
+        later = now + datetime.timedelta(seconds=fetch_delay_s)
+        clock.set(later)
+        later_us = us_since_epoch(later)
     out = []
     for rep in mpd.reps:
         trex_dur = None
@@ -356,6 +365,8 @@ def walk_manifest(app, client, clock, stream: str, url: str, now: datetime.datet
                 f.end_le_now = (t + d) * 1_000_000 <= rel_us * rep.timescale if mpd.type == "dynamic" else True
                 if mpd.type == "dynamic" and mpd.tsbd_us is not None:
                     f.before_window = (2 * t + d) * 1_000_000 < 2 * (rel_us - mpd.tsbd_us) * rep.timescale
+                    f.win_off_us = t * 1_000_000 // rep.timescale - (rel_us - mpd.tsbd_us)
+                f.fetch_now_us = later_us
                 _fetch(client, f, trex_dur)
                 out.append(f)
         elif rep.timeline is not None and "$Number$" in rep.media:
@@ -369,6 +380,8 @@ def walk_manifest(app, client, clock, stream: str, url: str, now: datetime.datet
                 f.end_le_now = (t + d) * 1_000_000 <= rel_us * rep.timescale if mpd.type == "dynamic" else True
                 if mpd.type == "dynamic" and mpd.tsbd_us is not None:
                     f.before_window = (2 * t + d) * 1_000_000 < 2 * (rel_us - mpd.tsbd_us) * rep.timescale
+                    f.win_off_us = t * 1_000_000 // rep.timescale - (rel_us - mpd.tsbd_us)
+                f.fetch_now_us = later_us
                 _fetch(client, f, trex_dur)
                 out.append(f)
         elif rep.duration and "$Number$" in rep.media:
@@ -383,6 +396,10 @@ def walk_manifest(app, client, clock, stream: str, url: str, now: datetime.datet
                 u = rep.media_url(number=n)
                 f = Fetch(url, iso(now), now_us, stream, rep.rep_id, "number", n, rep.duration, u, 0)
                 f.end_le_now = True
+                if mpd.tsbd_us is not None:
+                    rel_us = now_us - (mpd.ast_us or 0) - rep.period_start_us
+                    f.win_off_us = (n - rep.start_number) * rep.duration * 1_000_000 // rep.timescale - (rel_us - mpd.tsbd_us)
+                f.fetch_now_us = later_us
                 _fetch(client, f, trex_dur)
                 out.append(f)
     return mpd, 200, out
